@@ -45,6 +45,8 @@ static struct {
 	char buf[4096U];
 	size_t bi;
 	int fd;
+	/* descriptors a write to which has failed, see fdfailed() */
+	unsigned char bad[128U];
 } fd_aux;
 
 static ssize_t
@@ -56,8 +58,27 @@ fdflush(void)
 	     twr < tot &&
 		     (nwr = write(fd_aux.fd, fd_aux.buf + twr, tot - twr)) > 0;
 	     twr += nwr);
+	if (UNLIKELY(twr < (ssize_t)fd_aux.bi) && fd_aux.fd >= 0 &&
+	    (size_t)fd_aux.fd < 8U * sizeof(fd_aux.bad)) {
+		/* what's left is dropped, keep a note for whoever cares */
+		fd_aux.bad[fd_aux.fd / 8U] |=
+			(unsigned char)(1U << (fd_aux.fd % 8U));
+	}
 	fd_aux.bi = 0U;
 	return twr;
+}
+
+static __attribute__((unused)) int
+fdfailed(int fd)
+{
+/* whether a write to FD has failed since the last enquiry */
+	int res = 0;
+
+	if (fd >= 0 && (size_t)fd < 8U * sizeof(fd_aux.bad)) {
+		res = (fd_aux.bad[fd / 8U] >> (fd % 8U)) & 0b1U;
+		fd_aux.bad[fd / 8U] &= (unsigned char)~(1U << (fd % 8U));
+	}
+	return -res;
 }
 
 static int
